@@ -10,9 +10,9 @@ func init() {
 		Technique:   "property-based testing (rapid) with virtual time (testing/synctest), history invariant over recorded handler intervals",
 		DesignRef:   "DESIGN.md section 3, C03",
 		Runs: []run{
-			{Test: "TestC03_Order", Quick: 600, Thorough: 6000},
-			{Test: "TestC03_Init", Quick: 300, Thorough: 3000, Shards: 4},
-			{Test: "TestC03_Multi", Quick: 500, Thorough: 5000, Shards: 8},
+			{Test: "TestC03_Order", Quick: 600, Thorough: 48000},
+			{Test: "TestC03_Init", Quick: 300, Thorough: 24000, Shards: 4},
+			{Test: "TestC03_Multi", Quick: 500, Thorough: 40000, Shards: 8},
 		},
 	})
 }
